@@ -20,6 +20,16 @@ fn check(prop: &str, tier: Tier) {
     match prop {
         "C09" | "C10" | "C11" | "C12" => check_dom(prop, tier),
         "C18" => check_c18(tier),
+        "C01" => {
+            let run = Run::new("C01", tier, "model_checking");
+            let cov = vh::sweeps::check_c01(&run);
+            run.finish(cov, &["value domains are the finite boundary alphabets of DESIGN.md 3.3; forests bounded by the stated node count", "expected values use the documented normalisations only (BinaryString for untyped blobs, byte-colour quantisation, rotation snap within f32::EPSILON, gained same-class defaults)"]);
+        }
+        "C02" => {
+            let run = Run::new("C02", tier, "model_checking");
+            let cov = vh::sweeps::check_c02(&run);
+            run.finish(cov, &["value domains are the finite boundary alphabets of DESIGN.md 3.3; forests bounded by the stated node count", "strings are XML-1.0 legal; sequences have >= 2 keypoints"]);
+        }
         other => evidence::machinery_failure(&format!("no engine for property {}", other)),
     }
 }
@@ -303,6 +313,22 @@ fn replay(prop: &str, file: &std::path::Path) {
                 println!("REPLAY property={} outcome=violation", prop);
                 std::process::exit(1);
             }
+        }
+        "C01" => {
+            let vs = vh::sweeps::replay_bin(case);
+            for (k, w) in &vs {
+                println!("observed [{}]: {}", k, w);
+            }
+            println!("REPLAY property=C01 outcome={}", if vs.is_empty() { "holds" } else { "violation" });
+            std::process::exit(if vs.is_empty() { 0 } else { 1 });
+        }
+        "C02" => {
+            let vs = vh::sweeps::replay_xml(case);
+            for (k, w) in &vs {
+                println!("observed [{}]: {}", k, w);
+            }
+            println!("REPLAY property=C02 outcome={}", if vs.is_empty() { "holds" } else { "violation" });
+            std::process::exit(if vs.is_empty() { 0 } else { 1 });
         }
         "C18" => {
             let fs = vh::c18::replay(case);
